@@ -143,3 +143,21 @@ P('C14', 'other',
   'account total equity), allocation table re-indexed onto the equity dates with forward fill and cut at burn-in, one dated record per '
   'construction call. Not decided: the exact set of dates (C12/C13 calendar clauses).')
 TECHNIQUE['C14'] = 'static analysis: exhaustive decision table of the event loop, who-may-call chain, constant-evaluated exchange predicate, output-pipeline slot rules'
+
+P('C19', 'other',
+  'Static rules. S1 DynamicUniverse.get_assets is one comprehension over all configured assets whose filter, evaluated as a decision table '
+  'over {entry date is None} x ordering(dt, entry), admits an asset iff it has a date and entry <= dt (inclusive); StaticUniverse returns its '
+  'configured list; both are stateless and their maps are written only by the constructors. S2 SingleSignalAlphaModel is straight-line and '
+  'stateless: weights for exactly universe.get_assets(dt), each the configured signal; the construction model considers held assets union '
+  'universe(dt) only. S3 the fixed-weight optimiser returns its parameter; the equal-weight optimiser gives scale/len(keys) to exactly the '
+  'input keys, no filter. Composition over sessions (no fill before entry) follows from these plus C14/C09 and is not re-derived.')
+TECHNIQUE['C19'] = 'static analysis: decision table of the membership filter, statelessness/effect rules, canonical-formula matching of the optimisers'
+P('C09', 'other',
+  'Static rules on PortfolioConstructionModel and the two order sizers. S1 asset set = sorted(held assets union universe(dt)). S2 each '
+  'construction step runs exactly once per call; zero weights cover the full set; overlay = zero weights first, optimiser weights second. S3 '
+  'the same full vector flows to the order sizer and into the dated target-allocation record. S4 order quantity = target - current asset by '
+  'asset (canonical arithmetic), for every target asset, exactly the non-zero differences, one Order(dt, asset, qty) each, sorted by asset '
+  'ascending, returned unmodified. S5 both sizers assign a target to every item of the normalised weights (no break/continue/filter, no '
+  'early return except for an empty weight dict) and normalisation preserves the key set - which is what makes a held asset without weight '
+  'get an explicit zero target and be liquidated. Not decided: that holdings equal the target after the fills (composition with C04/C02).')
+TECHNIQUE['C09'] = 'static analysis: provenance of the weight vector through the construction steps, canonical order-difference formula, loop-completeness path rules'
